@@ -5,7 +5,7 @@ import math
 import os
 import tempfile
 
-from . import REPO, docgen, reader
+from . import REPO, core, docgen, reader
 
 BENCH_DIR = os.path.join(REPO, "nasim", "scenarios", "benchmark")
 SHIPPED = ["tiny", "tiny-hard", "tiny-small", "small", "small-honeypot",
@@ -119,9 +119,20 @@ def variant_spec(spec, rng, name=None, keep_order=True):
         return None
     try:
         doc = parse_doc(text)
+        if rng.random() < 0.15:
+            # the same names, number of subnets and largest subnet (= the
+            # same vector layout) but other subnet sizes: another number of
+            # hosts, other host numbering
+            import random as _random
+            d2 = docgen.gen_doc(_random.Random(rng.getrandbits(48)),
+                                like=doc, step_limit=None)
+            if len(d2["subnets"]) == len(doc["subnets"]) and \
+                    max(d2["subnets"]) == max(doc["subnets"]):
+                return {"kind": "yaml", "text": docgen.emit(d2), "name": nm}
         hosts = doc["host_configurations"]
         muts = ["scan", "probs_one", "probs", "costs", "swap_hosts",
-                "access", "fw_open", "fw_some", "limit", "public"]
+                "access", "fw_open", "fw_some", "limit", "public",
+                "add_host", "add_host"]
         if not keep_order:
             muts += ["reorder", "reorder", "reorder"]
         for m in rng.sample(muts, rng.randint(1, 3)):
@@ -160,6 +171,20 @@ def variant_spec(spec, rng, name=None, keep_order=True):
                         doc["firewall"][k] = []
             elif m == "limit":
                 doc["step_limit"] = rng.choice([5, 50, 1000])
+            elif m == "add_host":
+                # one more machine in a subnet that is not the largest: the
+                # vector layout stays, the number of hosts does not
+                sizes = [int(x) for x in doc["subnets"]]
+                small = [i for i, z in enumerate(sizes) if z < max(sizes)]
+                if small:
+                    i = rng.choice(small)
+                    import copy as _copy
+                    tmpl = _copy.deepcopy(next(iter(hosts.values())))
+                    tmpl.pop("firewall", None)
+                    tmpl.pop("value", None)
+                    hosts[docgen.A(i + 1, sizes[i])] = tmpl
+                    sizes[i] += 1
+                    doc["subnets"] = sizes
             elif m == "public":
                 # another subnet is open to the internet (topology and the
                 # two firewall rules); the vector layout stays the same
@@ -320,6 +345,9 @@ def gen_params(rng, max_hosts=120, allow_alpha1=False, small_bias=True):
     p["alpha_V"] = alpha()
     p["lambda_V"] = rng.choice([1.0, 1.0, 0.3, 2.5, 5.0,
                                 round(rng.uniform(0.05, 10), 3)])
+    if core.h64(f"lv|{n}|{S}|{OS}|{P}|{p['alpha_H']}") % 25 == 0:
+        p["lambda_V"] = (1e-9, 1e-4, 0.01)[
+            core.h64(f"lv2|{n}|{S}|{p['alpha_V']}") % 3]   # tiny but > 0
 
     def probs(k, mixed_ok):
         r = rng.random()
@@ -517,8 +545,9 @@ def family_spec(rng, which=None):
             # non-sensitive hosts that used to be sensitive keep no value
     elif which == "honeypot":
         doc = docgen.gen_doc(rng, max_subnets=3, step_limit=None)
+        sens = {docgen.reader_addr(k) for k in doc["sensitive_hosts"]}
         for k, h in doc["host_configurations"].items():
-            if k not in doc["sensitive_hosts"] and rng.random() < 0.5:
+            if docgen.reader_addr(k) not in sens and rng.random() < 0.5:
                 h["value"] = rng.choice([-100, -1, -0.5])
     else:
         doc = docgen.gen_doc(rng, deny_rate=0.95, step_limit=None)
